@@ -1,4 +1,6 @@
 import Nsq.Proofs.ToFile
+import Nsq.Proofs.ToFileNoOverwrite
+import Nsq.Proofs.ToFileTrace
 /-!
 # C19 — nsq_to_file never acknowledges what it has not safely written
 
@@ -41,22 +43,6 @@ theorem fin_implies_durable_from (c : Cfg) (io : Nat → Fault) (st : St) (h : I
     ∀ m ∈ (run c io st evs).finished, Safe (run c io st evs).fs (line m) :=
   fun m hm => safe_of_durS ((inv_run io evs _ h).fin m hm)
 
-theorem step_stopped (c : Cfg) (io : Nat → Fault) (st : St) (e : Ev) (s : Bool) (h : st.status ≠ .running) :
-    step c io st e s = st := by
-  unfold step; rw [if_pos h]
-
-theorem run_stopped (c : Cfg) (io : Nat → Fault) (st : St) (evs : List (Ev × Bool)) (h : st.status ≠ .running) :
-    run c io st evs = st := by
-  induction evs with
-  | nil => rfl
-  | cons e es ih => unfold run; rw [step_stopped c io st e.1 e.2 h]; exact ih
-
-theorem run_append (c : Cfg) (io : Nat → Fault) (st : St) (e1 e2 : List (Ev × Bool)) :
-    run c io st (e1 ++ e2) = run c io (run c io st e1) e2 := by
-  induction e1 generalizing st with
-  | nil => rfl
-  | cons e es ih => exact ih _
-
 /-- **Kill anywhere.** The fault schedule can stop the process (SIGKILL, or a failing call →
 `os.Exit(1)`) before any system call and before any single `Finish` of any event. Once stopped,
 nothing changes any more, and everything that was FINished before the stop is safe on disk.
@@ -81,6 +67,43 @@ theorem close_keeps_pending (c : Cfg) (io : Nat → Fault) (st : St) (h : Inv c 
     (hrun : (closeOut c io st).status = .running) :
     ∀ m ∈ (closeOut c io st).pending, Safe (closeOut c io st).fs (line m) :=
   fun m hm => safe_of_durS ((inv_closeOut io st h).2 hrun m hm)
+
+
+/-- **No overwrite.** Whatever the directories contained before the tool started (`fs0`) is never
+overwritten, truncated or re-pointed: every pre-existing file in the output dir (and, without a
+separate work dir, every pre-existing file) still has its name, and its old bytes are a prefix of
+its current bytes (`O_APPEND`); with `O_EXCL` (gzip or rotate-interval) *every* pre-existing file —
+work dir included — is byte-identical. Holds along every run, for every fault schedule, also when
+other processes create new files in between (`Ev.ext`). -/
+theorem no_overwrite (c : Cfg) (hwf : c.WF) (io : Nat → Fault) (fs0 : FS) (hdom : DomOk fs0)
+    (evs : List (Ev × Bool)) (p : Path) (f0 : File) (hp : fs0.get p = some f0) :
+    (p.out = true ∨ c.workDir = false →
+      ∃ f, (run c io (init fs0) evs).fs.get p = some f ∧ (∃ x, f.data = f0.data ++ x) ∧ f0.durable ≤ f.durable) ∧
+    (c.excl = true → (run c io (init fs0) evs).fs.get p = some f0) := by
+  have h := noOv_run hwf io evs _ (noOv_init c fs0 hdom)
+  exact ⟨fun hk => h.keep p f0 hp hk, fun hx => h.excl hx p f0 hp⟩
+
+/-- **The revision searches terminate.** The `for ; ; rev++` loops of `updateFile` and `Close` end:
+with as many iterations as one more than the highest revision that ever existed, a free name is
+found. (`Cfg.WF` is what `computeFilenameFormat` enforces: `<REV>` is present whenever a loop can
+`continue`.) -/
+theorem rev_terminates (c : Cfg) (hwf : c.WF) (fs : FS) (hdom : DomOk fs) (fn : String) (r : Nat) :
+    search (taken c fs fn) (fuel fs) r ≠ none ∧
+    (c.hasRev = true → search (takenDst c fs fn) (fuel fs) r ≠ none) :=
+  ⟨search_terminates fs hdom _ r (fun i hi => taken_witness c hwf fs fn i hi),
+   fun hrev => search_terminates fs hdom _ r (fun i hi => takenDst_witness c hrev fs fn i hi)⟩
+
+/-- … so the model's `diverged` status (search fuel exhausted) is unreachable. -/
+theorem never_diverges (c : Cfg) (hwf : c.WF) (io : Nat → Fault) (fs0 : FS) (hdom : DomOk fs0) (evs : List (Ev × Bool)) :
+    (run c io (init fs0) evs).status ≠ .diverged :=
+  (noOv_run hwf io evs _ (noOv_init c fs0 hdom)).nodiv
+
+/-- **Syscall leg.** The checker run over the `strace` log of the real process is sound: a trace it
+accepts has an `fsync` of the file between every `write` to an output file and every later FIN. -/
+theorem fin_after_fsync_checker_sound (tr pre mid post : List Nsq.Model.ToFileTrace.Sys) (f id : Nat)
+    (h : Nsq.Model.ToFileTrace.checkTrace tr = true)
+    (hs : tr = pre ++ .write f :: mid ++ .fin id :: post) : .fsync f ∈ mid :=
+  Nsq.Proofs.ToFileTrace.checkTrace_sound tr pre mid post f id h hs
 
 /-! ### non-vacuity -/
 
@@ -120,5 +143,20 @@ example : ¬ SurvivesIn ⟨[104, 105, 10], [], 0⟩ (line m1) := by
   intro ⟨a, b, h⟩
   have := congrArg List.length h
   simp [line, m1] at this
+
+/-- pre-existing colliding file in the output dir, O_EXCL mode: untouched, the tool's data goes to rev 1 -/
+def fsPre : FS := FS.empty.set ⟨true, "t<REV>.log", 0⟩ ⟨[1, 2, 3], [], 3⟩
+example : DomOk fsPre := by
+  intro p hp
+  by_cases e : p = ⟨true, "t<REV>.log", 0⟩
+  · subst e; simp [fsPre, FS.set]
+  · simp [fsPre, FS.set, FS.empty, e] at hp
+example : cfgGzWork.WF := Or.inl rfl
+example : (run cfgGzWork noFault (init fsPre) evs2).fs.get ⟨true, "t<REV>.log", 0⟩ = some ⟨[1, 2, 3], [], 3⟩
+    ∧ ((run cfgGzWork noFault (init fsPre) evs2).fs.get ⟨true, "t<REV>.log", 1⟩).isSome = true := by decide
+/-- a file appearing in the output dir while the work file is open: `Close` bumps the revision -/
+example : ((run cfgGzWork noFault (init FS.empty)
+      [(.msg m1 100 "t<REV>.log", false), (.ext ⟨true, "t<REV>.log", 0⟩ [9], false), (.hup, false)]).fs.get
+        ⟨true, "t<REV>.log", 1⟩).isSome = true := by decide
 
 end Nsq.Props.C19
